@@ -4,6 +4,7 @@ CONSTANTS
   N = 2
   Cap = 16
   Kinds <- KindsDV
+  Script <- ScriptNone
   GenK = 1
 VIEW View
 INVARIANT Inv_NoLostWake
